@@ -54,9 +54,10 @@ func (n *ParallelNode) ID() string {
 // error happened and the node needs to stop running. The coordinator collects
 // job results in the same order as the order of the dispatched jobs, so the
 // order of messages is maintained.
-func (n *ParallelNode) Run(ctx context.Context) error {
-	// allow each worker to store an error in the channel
-	errs := make(chan error, n.Workers)
+func (n *ParallelNode) Run(ctx context.Context) (err error) {
+	// allow the coordinator to store an error for each worker in the channel
+	// and each worker to store the error returned by its node
+	errs := make(chan error, 2*n.Workers)
 	trigger, cleanup, err := n.base.Trigger(ctx, n.logger, errs)
 	if err != nil {
 		return err
@@ -76,6 +77,7 @@ func (n *ParallelNode) Run(ctx context.Context) error {
 	for i := 0; i < n.Workers; i++ {
 		node := n.NewNode(i)
 		worker := newParallelNodeWorker(node, workerJobs, n.logger)
+		worker.errs = errs
 		workerWg.Add(1)
 		go func() {
 			defer workerWg.Done()
@@ -109,6 +111,13 @@ func (n *ParallelNode) Run(ctx context.Context) error {
 		for {
 			select {
 			case workerErr := <-errs:
+				if cerrors.IsFatalError(workerErr) && !cerrors.IsFatalError(err) {
+					// a fatal error must stay fatal regardless of which error
+					// reached the main loop first (e.g. the nack error forwarded
+					// by the coordinator), otherwise the pipeline is restarted
+					// instead of degraded
+					err, workerErr = workerErr, err
+				}
 				err = cerrors.LogOrReplace(err, workerErr, func() {
 					n.logger.Warn(ctx).Err(workerErr).Msg("parallel worker node failed")
 				})
@@ -266,6 +275,9 @@ type parallelNodeWorker struct {
 	node   PubSubNode
 	jobs   cchan.ChanOut[parallelNodeJob]
 	logger log.CtxLogger
+	// errs receives the error returned by the node (optional). It has to be
+	// buffered, so that the worker can't be blocked by it.
+	errs chan<- error
 }
 
 func newParallelNodeWorker(
@@ -309,9 +321,16 @@ func (w *parallelNodeWorker) Run(ctx context.Context) {
 }
 
 func (w *parallelNodeWorker) runWorker(ctx context.Context) {
-	// we can ignore errors, if an error happens they are propagated through
-	// a message nack/ack to the forwarder node and further to the coordinator
-	_ = w.node.Run(ctx)
+	// The message that failed is propagated through a message nack/ack to the
+	// forwarder node and further to the coordinator. The error returned by the
+	// node still needs to reach the parallel node: it carries the classification
+	// of the failure (see cerrors.FatalError) and the node can fail without a
+	// failed ack/nack (e.g. the failed record was stored in the DLQ, but the
+	// processor must not continue running).
+	err := w.node.Run(ctx)
+	if err != nil && w.errs != nil && !cerrors.Is(err, context.Canceled) {
+		w.errs <- err
+	}
 }
 
 func (w *parallelNodeWorker) runForwarder(in chan<- *Message, out <-chan *Message) {
